@@ -34,6 +34,7 @@ NONMUTATING = {'next', 'deref_mut', 'index_mut', 'as_mut', 'borrow_mut', 'lock',
 
 CALLEES = {}
 CONST_INTS = {}   # def path of an unevaluated integer constant -> its value
+ENV_SRC = {}      # (body path, stripped operand term) -> source type of an into_envelope/to_envelope/Envelope::new conversion
 
 
 def is_transparent(c: Callee):
@@ -558,12 +559,14 @@ class TermBuilder:
             ty = self._operand_ty(a0)
             if ty and ty_matches(ty, 'Envelope'):
                 return args[0]
+            ENV_SRC[(body.path, strip_sites(args[0]))] = ty or (c.args[0] if c.args else '')
             return ('env', args[0])
         if sp.endswith('::Envelope::new') and args:
             a0 = t['args'][0]
             ty = self._operand_ty(a0)
             if ty and ty_matches(ty, 'Envelope'):
                 return args[0]
+            ENV_SRC[(body.path, strip_sites(args[0]))] = ty or (c.args[0] if c.args else '')
             return ('env', args[0])
         if c.name == 'call' and c.is_trait_method('Fn') or c.name == 'call_mut' and c.is_trait_method('FnMut') or c.name == 'call_once' and c.is_trait_method('FnOnce'):
             return ('callv', args[0], args[1:], (body.path, block))
